@@ -43,6 +43,15 @@ def gen_case(r, cid, tier):
     raw = r.random() < 0.35       # stream B: AddConnection onto anything (non-canonical forms reachable)
     ops = []
     fresh = set()
+    if r.random() < 0.2:
+        # a named port taken away and given back: (ports minus {name}) united with {name} must not keep the name excluded
+        names_p = max(names_p, 0.15)
+        p, nm = r.choice(PROTOS), r.choice(NAMES)
+        base = r.choice([{'all': True, 'ranges': [], 'named': []}, {'all': False, 'ranges': [[80, 90]], 'named': []}, {'all': False, 'ranges': [[1, 65535]], 'named': [nm]}])
+        ops += [{'op': 'new', 'i': 0, 'all': False}, {'op': 'addconn', 'i': 0, 'proto': p, 'ps': base},
+                {'op': 'new', 'i': 1, 'all': False}, {'op': 'addconn', 'i': 1, 'proto': p, 'ps': {'all': False, 'ranges': [], 'named': [nm]}},
+                {'op': 'sub', 'i': 0, 'j': 1}, {'op': 'union', 'i': 0, 'j': 1}, {'op': 'isall', 'i': 0}, {'op': 'string', 'i': 0}]
+        fresh.update([0, 1])
     for _ in range(length):
         x = r.random()
         i = r.randrange(n)
